@@ -1,19 +1,261 @@
-import Fv.Log.Route
-import Fv.Log.Pipeline
+import Fv.Lemmas.RouteSpec
+import Fv.Lemmas.Pipeline
 /-!
 # C19 — log events reach exactly the configured appenders, in order, none lost
+
+Property theorems only. Models: `Fv/Log/Route.lean` (`RouteSpec` = the statement made formal,
+`route` = what the code builds and evaluates, `emitLog` / `emitTracing` = the two entry points
+with their pre-filters) and `Fv/Log/Pipeline.lean` (bounded FIFO per appender, overflow policy,
+writer / stream consumer, shutdown). Helper lemmas: `Fv/Lemmas/Route.lean`, `RouteSpec.lean`,
+`Pipeline.lean`.
+
+Routing (for ALL configurations satisfying the HashMap/validation invariants `Config.WF`, all
+targets, all event levels ERROR..TRACE, every iteration order of the hash maps):
+* `C19_route_eq_spec_partial` — `a ∈ route cfg ev ↔ RouteSpec cfg ev a` whenever the most specific
+  matching logger (if any) names at least one appender (`WinnerWired`);
+  `C19_route_eq_spec_allWired_partial` — the configuration-wide corollary.
+  The full statement is FALSE of the code: `C19_fails_F12a` (non-additive logger without
+  appenders does not gate) and `C19_fails_F12c` (additive logger without appenders does not lift
+  the gate of a less specific non-additive logger — so "every non-additive logger names an
+  appender" is not a sufficient hypothesis).
+* `C19_prefilters_never_reject` — `event_enabled`, the `max_level` hint and `log::max_level()`
+  never reject an event `route` would deliver; `C19_log_tracing_same` — both entry points deliver
+  exactly `route cfg (target, level)`.
+* `C19_exactly_once` — no appender occurs twice in the delivery list.
+Pipeline (every step sequence of emitters, consumer and shutdown, any capacity):
+* `C19_fifo`, `C19_per_thread_order`, `C19_block_never_drops`, `C19_drop_never_blocks`;
+* `C19_no_loss_at_shutdown_partial` — if no emit is concurrent with shutdown, then once the
+  consumer has exited / seen `Disconnected` it has taken exactly the accepted events;
+  `C19_fails_F12b` — without that hypothesis the writer loses an accepted event.
 -/
 namespace Fv.Props.C19
 open Fv.Log
 
-/-- F12a on the model: root → appender 0, non-additive logger `q` naming no appender; target
-`q::i` at INFO is delivered to appender 0 by the code, the property says nobody receives it. -/
+/-! ## Routing -/
+
+/-- **Routing clause, partial.** For every well-formed configuration, every target and every
+event level ≥ ERROR: if the most specific matching logger overall (when one exists) names at
+least one appender, the code delivers to exactly the appenders the property selects. -/
+theorem C19_route_eq_spec_partial (cfg : Config) (wf : cfg.WF) (ev : Event) (hev : 0 < ev.level)
+    (hF12a : WinnerWired cfg ev) (a : Appender) :
+    a ∈ route cfg ev ↔ RouteSpec cfg ev a :=
+  mem_route_iff_spec wf hev hF12a a
+
+/-- Configuration-wide form: if every logger other than `root` names at least one appender then
+routing is exactly the specification for all events. -/
+theorem C19_route_eq_spec_allWired_partial (cfg : Config) (wf : cfg.WF) (hall : AllWired cfg)
+    (ev : Event) (hev : 0 < ev.level) (a : Appender) :
+    a ∈ route cfg ev ↔ RouteSpec cfg ev a :=
+  mem_route_iff_spec wf hev (allWired_winnerWired hall ev) a
+
+/-- the configuration of the repository's additivity-matrix test, in model form -/
+def exCfg : Config :=
+  { appenders := [0, 1, 2]
+    loggers := [ { name := ['a'], level := 4, appenders := [1], additive := true },
+                 { name := ['a', ':', ':', 'b'], level := 2, appenders := [2], additive := false } ]
+    rootLevel := 3, rootAppenders := [0] }
+
+example : exCfg.WF := ⟨by decide, by decide, by decide⟩
+example : AllWired exCfg := by decide
+example : WinnerWired exCfg { target := ['a', ':', ':', 'b', ':', ':', 'c'], level := 2 } := by decide
+-- additive `a`: root's appender and `a`'s appender; non-additive `a::b`: only its own appender
+example : route exCfg { target := ['a', ':', ':', 'x'], level := 3 } = [0, 1] := by decide
+example : route exCfg { target := ['a', ':', ':', 'b', ':', ':', 'c'], level := 2 } = [2] := by decide
+example : RouteSpec exCfg { target := ['a', ':', ':', 'b', ':', ':', 'c'], level := 2 } 2 := by decide
+example : ¬ RouteSpec exCfg { target := ['a', ':', ':', 'b', ':', ':', 'c'], level := 2 } 0 := by decide
+-- `a::bc` is not under `a::b` (no `::` boundary): it falls to `a`
+example : route exCfg { target := ['a', ':', ':', 'b', 'c'], level := 3 } = [0, 1] := by decide
+
+/-- **F12a on the model.** root → appender 0; non-additive logger `q` names no appender. Target
+`q::i` at INFO: the property selects nobody, the code delivers to appender 0. Every non-additive
+logger naming ≥ 1 appender is exactly what this configuration violates. -/
 theorem C19_fails_F12a :
     ∃ (cfg : Config) (ev : Event) (a : Appender),
-      cfg.WF ∧ NonAdditiveWired cfg = False ∧ a ∈ route cfg ev ∧ ¬ RouteSpec cfg ev a := by
-  refine ⟨{ appenders := [0], loggers := [{ name := ['q'], level := 3, appenders := [], additive := false }],
-            rootLevel := 3, rootAppenders := [0] },
-          { target := ['q', ':', ':', 'i'], level := 3 }, 0, ⟨by decide, by decide, by decide⟩, ?_, by decide, by decide⟩
-  simp [NonAdditiveWired]
+      cfg.WF ∧ 0 < ev.level ∧ ¬ NonAdditiveWired cfg ∧ a ∈ route cfg ev ∧ ¬ RouteSpec cfg ev a :=
+  ⟨{ appenders := [0], loggers := [{ name := ['q'], level := 3, appenders := [], additive := false }],
+     rootLevel := 3, rootAppenders := [0] },
+   { target := ['q', ':', ':', 'i'], level := 3 }, 0,
+   ⟨by decide, by decide, by decide⟩, by decide, by decide, by decide, by decide⟩
+
+/-- **F12c on the model** (same root cause, opposite direction). Every non-additive logger names
+an appender, yet routing differs from the property: `a` (non-additive → appender 1), `a::b`
+(ADDITIVE, no appenders), root → appender 0. Target `a::b::c`: the most specific matching logger
+is additive, so root's appender 0 must receive the event; the code gates it on `a`. -/
+theorem C19_fails_F12c :
+    ∃ (cfg : Config) (ev : Event) (a : Appender),
+      cfg.WF ∧ 0 < ev.level ∧ NonAdditiveWired cfg ∧ RouteSpec cfg ev a ∧ a ∉ route cfg ev :=
+  ⟨{ appenders := [0, 1],
+     loggers := [ { name := ['a'], level := 3, appenders := [1], additive := false },
+                  { name := ['a', ':', ':', 'b'], level := 3, appenders := [], additive := true } ],
+     rootLevel := 3, rootAppenders := [0] },
+   { target := ['a', ':', ':', 'b', ':', ':', 'c'], level := 3 }, 0,
+   ⟨by decide, by decide, by decide⟩, by decide, by decide, by decide, by decide⟩
+
+/-- **Pre-filters are sound.** Whatever `process_event` would deliver passes `event_enabled`
+(the `tracing` layer's `enabled`), the `max_level_hint`, and `log::max_level()` as set by init. -/
+theorem C19_prefilters_never_reject (cfg : Config) (ev : Event) (a : Appender) (h : a ∈ route cfg ev) :
+    eventEnabled cfg ev = true ∧ ev.level ≤ maxLevel cfg ∧
+      (ev.level ≤ 5 → ev.level ≤ logMaxLevel cfg) := by
+  refine ⟨route_eventEnabled h, route_le_maxLevel h, ?_⟩
+  intro h5
+  have := route_le_maxLevel h
+  unfold logMaxLevel tracingFilterToLogFilter
+  repeat' split
+  all_goals omega
+
+example : 1 ∈ route exCfg { target := ['a'], level := 4 } := by decide
+
+/-- **`log` and `tracing` entry points agree**: a `log::Record` and a `tracing` event with the
+same target and corresponding level reach the same appenders, namely `route cfg (target, level)`
+(the per-API pre-filters change nothing). -/
+theorem C19_log_tracing_same (cfg : Config) (target : Name) (lvl : LogLevel) :
+    emitLog cfg target lvl = route cfg { target := target, level := logLevelToTracing lvl } ∧
+    emitTracing cfg target (logLevelToTracing lvl) = route cfg { target := target, level := logLevelToTracing lvl } := by
+  constructor
+  · unfold emitLog
+    split
+    · rename_i hlt
+      symm; apply route_eq_nil_of_prefilter; left
+      show maxLevel cfg < logLevelToTracing lvl
+      unfold logMaxLevel tracingFilterToLogFilter at hlt
+      cases lvl <;> simp only [LogLevel.toNat, logLevelToTracing] at hlt ⊢ <;>
+        (repeat' split at hlt) <;> omega
+    · rfl
+  · unfold emitTracing
+    simp only []
+    split
+    · rename_i hlt
+      symm; exact route_eq_nil_of_prefilter (Or.inl hlt)
+    · split
+      · rename_i hne
+        symm; apply route_eq_nil_of_prefilter; right
+        simpa using hne
+      · rfl
+
+example : emitLog exCfg ['a', ':', ':', 'x'] .info = [0, 1] ∧ emitTracing exCfg ['a', ':', ':', 'x'] 3 = [0, 1] := by decide
+example : emitLog exCfg ['a', ':', ':', 'x'] .trace = [] ∧ emitTracing exCfg ['a', ':', ':', 'x'] 5 = [] := by decide
+
+/-- **Exactly once**: no appender is selected twice for one event (and each selected appender
+gets one send in `process_event`). -/
+theorem C19_exactly_once (cfg : Config) (wf : cfg.WF) (ev : Event) : (route cfg ev).Nodup :=
+  route_nodup wf ev
+
+/-! ## Pipeline -/
+
+open Fv.Log.Pipeline
+
+/-- **FIFO / no loss while running**: after any step sequence, what the consumer has taken
+followed by what is still visible in the channel is exactly the accepted sequence. -/
+theorem C19_fifo (cap : Nat) (pol : Overflow) (c : Consumer) (tr : List Step) (s : State)
+    (h : run (init cap pol c) tr = some s) : s.out ++ s.buf = s.accepted :=
+  (inv_run (inv_init cap pol c) h).fifo
+
+/-- **Per-thread order**: per emitting thread, the delivered sequence is a prefix of the accepted
+sequence, which is a prefix of the sequence in which that thread issued its sends. -/
+theorem C19_per_thread_order (cap : Nat) (pol : Overflow) (c : Consumer) (tr : List Step) (s : State)
+    (h : run (init cap pol c) tr = some s) (t : Nat) :
+    ofThread t s.out <+: ofThread t s.accepted ∧ ofThread t s.accepted <+: ofThread t s.claimed := by
+  have inv := inv_run (inv_init cap pol c) h
+  constructor
+  · rw [← inv.fifo, ofThread_append]; exact List.prefix_append _ _
+  · rw [← inv.order t]; exact List.prefix_append _ _
+
+/-- **Block never drops**: with the blocking overflow policy no event is discarded for lack of
+room (a sender waits instead). -/
+theorem C19_block_never_drops (cap : Nat) (c : Consumer) (tr : List Step) (s : State)
+    (h : run (init cap .block c) tr = some s) : s.dropped = [] :=
+  (inv_run (inv_init cap .block c) h).noDrop (by
+    have : ∀ (s s' : State) (st : Step), step s st = some s' → s'.policy = s.policy := by
+      intro s s' st hs
+      cases st <;> simp only [step, sendBegin, sendEnd, consume, seeFlag, seeDisconnected, drainEmpty] at hs
+      all_goals (repeat' split at hs) <;> first | cases hs; rfl | cases hs
+    have hrun : ∀ (tr : List Step) (s s' : State), run s tr = some s' → s'.policy = s.policy := by
+      intro tr
+      induction tr with
+      | nil => intro s s' hs; simp [run] at hs; rw [hs]
+      | cons st tr ih =>
+        intro s s' hs
+        simp only [run] at hs
+        cases hst : step s st with
+        | none => rw [hst] at hs; cases hs
+        | some s1 => rw [hst] at hs; rw [ih s1 s' hs, this s s1 st hst]
+    rw [hrun tr _ s h]; rfl)
+
+/-- **DropNewest never blocks**: a thread that is not already inside a send can always start one. -/
+theorem C19_drop_never_blocks (s : State) (m : Msg) (hp : s.policy = .dropNewest)
+    (hidle : threadBusy s m.thread = false) : (step s (.sendBegin m)).isSome = true := by
+  simp only [step, sendBegin, hidle, hp]
+  repeat' split
+  all_goals first | rfl | contradiction | simp_all
+
+/-- **No loss at shutdown, partial.** `pre` is any history before shutdown; at the moment shutdown
+begins no send is in flight (`s1.inflight = []`) and no send starts between `setFlag` and `close`
+(`mid`): *no emit is concurrent with shutdown* (sends after `close` are refused by the channel
+and are not "accepted"). Then, for every continuation, once the consumer has exited (writer
+thread finished / stream receiver saw `Disconnected`) it has taken exactly the events accepted
+before shutdown began — and nothing was accepted afterwards. -/
+theorem C19_no_loss_at_shutdown_partial (cap : Nat) (pol : Overflow) (c : Consumer)
+    (pre mid rest : List Step) (s1 s2 : State)
+    (hpre : run (init cap pol c) pre = some s1)
+    (hfresh : s1.flag = false ∧ s1.closed = false)
+    (hF12b_noInflight : s1.inflight = [])
+    (hF12b_noNewSend : ∀ st ∈ mid, st.isSendBegin = false)
+    (hrun : run s1 (.setFlag :: mid ++ .close :: rest) = some s2)
+    (hexit : s2.phase = .exited) :
+    s2.out = s1.accepted ∧ s2.accepted = s1.accepted ∧
+      ∀ t, ofThread t s2.out = ofThread t s1.accepted := by
+  have inv1 := inv_run (inv_init cap pol c) hpre
+  have hq1 : Quiet s1.accepted s1 := by
+    refine ⟨hF12b_noInflight, rfl, ?_⟩
+    intro hex
+    have := inv1.phase (by rw [hex]; decide)
+    rcases this with h | h
+    · rw [hfresh.1] at h; cases h
+    · rw [hfresh.2] at h; cases h
+  have happ : (Step.setFlag :: mid ++ Step.close :: rest) = (Step.setFlag :: mid) ++ (Step.close :: rest) := by simp
+  rw [happ, run_append] at hrun
+  cases hsa : run s1 (Step.setFlag :: mid) with
+  | none => rw [hsa] at hrun; cases hrun
+  | some sa =>
+    rw [hsa] at hrun
+    simp only [Option.bind_some, run, step] at hrun
+    have hqa := (quiet_run hq1 (Or.inl (by
+      intro st hst
+      rcases List.mem_cons.1 hst with rfl | hst
+      · rfl
+      · exact hF12b_noNewSend st hst)) hsa).1
+    have hqb : Quiet s1.accepted { sa with closed := true } := ⟨hqa.noInflight, hqa.acc, hqa.exitedEmpty⟩
+    have hq2 := (quiet_run hqb (Or.inr rfl) hrun).1
+    have inv2 : Inv s2 := by
+      have hb : Inv { sa with closed := true } := inv_step (inv_run inv1 hsa) (st := .close) rfl
+      exact inv_run hb hrun
+    have hout : s2.out = s1.accepted := by
+      have := inv2.fifo
+      rw [hq2.exitedEmpty hexit, List.append_nil, hq2.acc] at this
+      exact this
+    exact ⟨hout, hq2.acc, fun t => by rw [hout]⟩
+
+/-- non-vacuity: two threads emit, shutdown with nothing in flight, the writer drains and exits. -/
+example :
+    let pre : List Step := [.sendBegin ⟨0, 0⟩, .sendBegin ⟨1, 0⟩, .sendEnd ⟨1, 0⟩, .sendEnd ⟨0, 0⟩, .consume, .sendBegin ⟨0, 1⟩, .sendEnd ⟨0, 1⟩]
+    let post : List Step := [.setFlag, .seeFlag, .close, .sendBegin ⟨1, 1⟩, .consume, .consume, .drainEmpty]
+    (run (init 2 .block .writer) (pre ++ post)).map (fun s => (s.phase, s.out, s.accepted, s.refused)) =
+      some (.exited, [⟨1, 0⟩, ⟨0, 0⟩, ⟨0, 1⟩], [⟨1, 0⟩, ⟨0, 0⟩, ⟨0, 1⟩], [⟨1, 1⟩]) := by decide
+
+/-- same for a custom stream: the receiver drains and then sees `Disconnected`. -/
+example :
+    (run (init 4 .block .stream)
+        [.sendBegin ⟨0, 0⟩, .sendEnd ⟨0, 0⟩, .setFlag, .close, .consume, .seeDisconnected]).map
+      (fun s => (s.phase, s.out, s.accepted)) = some (.exited, [⟨0, 0⟩], [⟨0, 0⟩]) := by decide
+
+/-- **F12b on the model.** A send has claimed its slot when shutdown begins; the writer sees the
+flag, its final `try_recv` finds nothing visible, it exits; the send then completes with `Ok`.
+The event is accepted (Block policy, nothing dropped or refused) and never written. -/
+theorem C19_fails_F12b :
+    ∃ (tr : List Step) (s : State),
+      run (init 4 .block .writer) tr = some s ∧ s.phase = .exited ∧
+        s.accepted = [⟨0, 0⟩] ∧ s.out = [] ∧ s.dropped = [] ∧ s.refused = [] :=
+  ⟨[.sendBegin ⟨0, 0⟩, .setFlag, .seeFlag, .drainEmpty, .close, .sendEnd ⟨0, 0⟩], _, rfl,
+    by decide, by decide, by decide, by decide, by decide⟩
 
 end Fv.Props.C19
